@@ -117,6 +117,22 @@ func newEngine(opts cat.Program, fsys fs.FS) *engine {
 	return &engine{root: opts.Engine(fsys), vue: opts.NewVue(fsys)}
 }
 
+func usesVue(entry string) bool { return entry == "vue" || entry == "frag" || entry == eNodes }
+
+// newEngineFor creates what the given entries need: the root template, the *Vue, or both.
+func newEngineFor(opts cat.Program, fsys fs.FS, entries []string) *engine {
+	e := &engine{}
+	for _, en := range entries {
+		if usesVue(en) && e.vue == nil {
+			e.vue = opts.NewVue(fsys)
+		}
+		if !usesVue(en) && e.root == nil {
+			e.root = opts.Engine(fsys)
+		}
+	}
+	return e
+}
+
 // seat is a program's place in a world: its engine, the name of its page file there, and the
 // nodes the "caller" parsed once for RenderNodes.
 type seat struct {
@@ -161,6 +177,17 @@ func (s *seat) call(entry string, d map[string]any) (result, error) {
 		err = s.eng.root.New().Fill(d).RenderByte(ctx, &buf, []byte(body))
 	case "reader":
 		err = s.eng.root.New().Fill(d).RenderReader(ctx, &buf, strings.NewReader(body))
+	case eAssign:
+		t := s.eng.root.Load(s.page)
+		keys := make([]string, 0, len(d))
+		for k := range d {
+			keys = append(keys, k)
+		}
+		sort.Strings(keys)
+		for _, k := range keys {
+			t = t.Assign(k, d[k])
+		}
+		err = t.Render(ctx, &buf)
 	case "vue":
 		err = s.eng.vue.Render(&buf, s.page, d)
 	case "frag":
@@ -187,13 +214,7 @@ func (s *seat) call(entry string, d map[string]any) (result, error) {
 // fresh renders program p alone: new filesystem, new engine, new data.
 func fresh(p cat.Program, entry string, v int) (result, error) {
 	fsys := p.FS()
-	st := &seat{p: p, page: "page.vuego", eng: &engine{}}
-	switch entry {
-	case "vue", "frag", eNodes:
-		st.eng.vue = p.NewVue(fsys)
-	default:
-		st.eng.root = p.Engine(fsys)
-	}
+	st := &seat{p: p, page: "page.vuego", eng: newEngineFor(p, fsys, []string{entry})}
 	return st.call(entry, goData(p, v))
 }
 
@@ -222,6 +243,14 @@ func reference(p cat.Program, entry string, v int) (result, error) {
 	r, err := fresh(p, entry, v)
 	if err != nil {
 		return r, err
+	}
+	// the reference itself must be free of other programs' values (it is computed in a process
+	// in which other references were rendered before)
+	for _, a := range foreign(Case{}, p) {
+		cn := a[strings.Index(a, "=")+1:]
+		if bytes.Contains(r.out, []byte(cn)) || strings.Contains(r.errTxt, cn) {
+			return r, fmt.Errorf("rendered alone on a fresh engine, the result contains %q, a value that only program %s was ever given: out %q err %q", cn, a[:strings.Index(a, "=")], clip(string(r.out)), clip(r.errTxt))
+		}
 	}
 	refTab[k] = r
 	return r, nil
@@ -370,7 +399,14 @@ func newWorld(c Case) (*world, error) {
 		if !ok {
 			return nil, fmt.Errorf("unknown program %q", st.Prog)
 		}
-		w.seats[st.Prog] = &seat{p: p, eng: newEngine(p, p.FS()), page: "page.vuego"}
+		// the program's long-lived root template and/or *Vue, whichever its steps use
+		var entries []string
+		for _, other := range c.Steps {
+			if other.Prog == st.Prog {
+				entries = append(entries, other.Entry)
+			}
+		}
+		w.seats[st.Prog] = &seat{p: p, eng: newEngineFor(p, p.FS(), entries), page: "page.vuego"}
 	}
 	return w, nil
 }
@@ -980,8 +1016,12 @@ func TestProp(t *testing.T) {
 		rec.Fail("reference", Case{Mode: "rebase"}, err)
 		return
 	}
-	rec.Count("reference-renders-on-fresh-engines", len(refTab))
-	rec.Note("shared engine holds %d of %d registered programs", len(sharedSet()), len(named))
+	if run.First() {
+		rec.Count("reference-renders-on-fresh-engines", len(refTab))
+	}
+	if run.First() {
+		rec.Note("shared engine holds %d of %d registered programs", len(sharedSet()), len(named))
+	}
 
 	run.Witnesses(rec, prop, replay)
 	shard, shards := run.Shard()
